@@ -608,6 +608,16 @@ class Case:
         self.stream.append(stream)
         if not with_entropy and r.entropy:
             self.impl_fail.append(f"{fn} drew {len(r.entropy)} bytes of OS entropy although it is deterministic")
+        if with_entropy and r.ok and r.entropy and isinstance(fn, str):
+            # every value of the random fill is admissible, whatever was drawn before: every fourth randomised call is repeated
+            # with the operating system returning the very same bytes again - same requests, same result
+            _REPLAYNO[0] += 1
+            if _REPLAYNO[0] % 4 == 0:
+                r2 = call_impl(fn, args, stream=stream, replay_entropy=r.entropy)
+                if not r2.ok:
+                    self.impl_fail.append(f"{fn}: repeated with the same values of the random fill, the call raised {r2.err} ({r2.exc!r})"[:300])
+                elif canon_impl(r2, tok) != canon_impl(r, tok) or r2.requests != r.requests:
+                    self.impl_fail.append(f"{fn}: repeated with the same values of the random fill, the call gave another result or drew differently")
         if r.ok and _has_header(r.value):
             ALIAS_WATCH.append((self, fn, r.value, canon_impl(r, tok), tok))
         if not with_entropy and isinstance(fn, str):
@@ -634,6 +644,7 @@ class Case:
 
 
 _PROBENO = [0]
+_REPLAYNO = [0]
 
 
 def _probe_before(fn, args):
